@@ -1,6 +1,7 @@
 import RV.C06.Model
 import RV.C06.PatchText
 import RV.C06.TrigLoop
+import RV.C06.HextText
 import RV.Base.Proto
 /-
   C06 driver.  Terms / names are tokens owned by the harness:
@@ -17,6 +18,10 @@ import RV.Base.Proto
     pparse <line> ; <line> ; …   -> "<ok|ParserError|ValueError> | quads" of parseDoc on the quads of src;
                      line = B | C | <head> N | <head> K (only a comment) | <head> . | <head> H <id|prev> <n> | <head> P | <head> Q s p o g
                      (s, o: term or w<n> = `<_:bn>`;  g: U | name | w<n>)
+    loadvocab <tok> <I|B|P> <cps> ; <tok> <G|T> <cps> <cps> ; …   -> ok   (strings of the tokens: IRI text, blank node label,
+                     plain literal, lang literal lex+tag, typed literal lex+datatype; cps = code points joined by `.`, `-` = empty)
+    hextdoc          -> the lines `hexLine` writes for the statements of emitHext src (code points; space-separated)
+    hparse <cps>     -> parseHexLine of one line: "ok <s> ; <p> ; <o> ; <g>" or ValueError | IndexError | unmodelled
   `store.contexts()` of the source = registered names ∪ names that carry a quad.
 -/
 open RV RV.C06 RV.Proto
@@ -147,9 +152,76 @@ def emitD : Fmt → Src → List Block
   | .trig, s => emitTrigLoop s
   | f, s => emit f s
 
+/-! #### round h: hextuples rows -/
+
+def cps? (w : String) : Option (List Char) :=
+  if w = "-" then some [] else (w.splitOn ".").mapM (fun x => x.toNat?.map Char.ofNat)
+
+def showCps (s : List Char) : String :=
+  if s.isEmpty then "-" else ".".intercalate (s.map (fun c => toString c.toNat))
+
+inductive VEntry
+  | iri (s : List Char) | bnode (l : List Char) | plain (lex : List Char)
+  | lang (lex l : List Char) | typed (lex dt : List Char)
+
+def ventry? : List String → Option (String × VEntry)
+  | [t, "I", a] => (cps? a).map (fun a => (t, .iri a))
+  | [t, "B", a] => (cps? a).map (fun a => (t, .bnode a))
+  | [t, "P", a] => (cps? a).map (fun a => (t, .plain a))
+  | [t, "G", a, b] => do let a ← cps? a; let b ← cps? b; pure (t, .lang a b)
+  | [t, "T", a, b] => do let a ← cps? a; let b ← cps? b; pure (t, .typed a b)
+  | _ => none
+
+def ventries? : List (List String) → Option (List (String × VEntry))
+  | [] => some []
+  | l :: ls => do let x ← ventry? l; let xs ← ventries? ls; pure (x :: xs)
+
+def vlookup : List (String × VEntry) → String → Option VEntry
+  | [], _ => none
+  | (k, v) :: m, t => if k = t then some v else vlookup m t
+
+def hnodeOf (v : List (String × VEntry)) (tok : String) : Option HNode :=
+  match vlookup v tok with
+  | some (.iri s) => some (.iri s)
+  | some (.bnode l) => some (.bnode l)
+  | _ => none
+
+def hobjOf (v : List (String × VEntry)) (tok : String) : Option HObj :=
+  match vlookup v tok with
+  | some (.iri s) => some (.node (.iri s))
+  | some (.bnode l) => some (.node (.bnode l))
+  | some (.plain x) => some (.plain x)
+  | some (.lang x l) => some (.lang x l)
+  | some (.typed x d) => some (.typed x d)
+  | none => none
+
+def hexLineOf (v : List (String × VEntry)) (sp : Spell) (t : Triple) : String :=
+  let g : Option (Option HNode) := match sp with
+    | .unnamed => some none
+    | .named .default => some (some (.iri "urn:x-rdflib:default".toList))
+    | .named g => (hnodeOf v (showName g)).map some
+  match hnodeOf v (showTerm t.1), hnodeOf v (showTerm t.2.1), hobjOf v (showTerm t.2.2), g with
+  | some s, some (.iri p), some o, some g => showCps (hexLine s p o (ctxStr g))
+  | _, _, _, _ => s!"missing:{showTriple t}"
+
+def hextDoc (v : List (String × VEntry)) (s : Src) : String :=
+  " ".intercalate ((emitHext s).flatMap (fun b => b.triples.map (hexLineOf v b.spell)))
+
+def showHNode : HNode → String
+  | .iri s => "I:" ++ showCps s | .bnode l => "B:" ++ showCps l
+def showHObj : HObj → String
+  | .node n => "N:" ++ showHNode n | .plain x => "P:" ++ showCps x
+  | .lang x l => "G:" ++ showCps x ++ ":" ++ showCps l | .typed x d => "T:" ++ showCps x ++ ":" ++ showCps d
+def showHRes : Except RV.C16.Err HQuad → String
+  | .ok q => s!"ok {showHNode q.s} ; {showCps q.p} ; {showHObj q.o} ; " ++ (match q.g with | none => "U" | some n => showHNode n)
+  | .error .value => "ValueError"
+  | .error .index => "IndexError"
+  | .error _ => "unmodelled"
+
 structure DSt where
   s1 : Src
   s2 : Src
+  vocab : List (String × VEntry) := []
 
 def emptySrc : Src := ⟨false, Name.default, [], []⟩
 
@@ -179,6 +251,15 @@ def step (st : DSt) : List String → DSt × String
       else if tg = "0" then (st, showDoc (serializeDoc o none hid hprev st.s1))
       else (st, "bad-op")
     | _, _, _ => (st, "bad-op")
+  | "loadvocab" :: ws =>
+    match ventries? ((splitSemi ws).filter (· ≠ [])) with
+    | some v => ({ st with vocab := v }, "ok")
+    | none => (st, "bad-op")
+  | ["hextdoc"] => (st, hextDoc st.vocab st.s1)
+  | ["hparse", w] =>
+    match cps? w with
+    | some line => (st, showHRes (parseHexLine line))
+    | none => (st, "bad-op")
   | "pparse" :: ws =>
     match plines? ((splitSemi ws).filter (· ≠ [])) with
     | some ls =>
@@ -187,4 +268,4 @@ def step (st : DSt) : List String → DSt × String
     | none => (st, "bad-op")
   | _ => (st, "bad-op")
 
-def main : IO Unit := RV.Proto.run step (⟨emptySrc, emptySrc⟩ : DSt)
+def main : IO Unit := RV.Proto.run step ({ s1 := emptySrc, s2 := emptySrc } : DSt)
